@@ -9,9 +9,7 @@ pub open spec fn acc_wf(a: &BatchAccumulator) -> bool {
 }
 
 // --- configuration (only the fields the extracted functions read; all symbolic) ---
-pub struct PartitionConfig { pub messages_required_to_save: u32, pub enforce_fsync: bool }
-pub struct SegmentConfig { pub size: u64, pub cache_indexes: bool, pub message_expiry: IggyExpiry, pub server_confirmation: Confirmation }
-pub struct SystemConfig { pub partition: PartitionConfig, pub segment: SegmentConfig }
+// (PartitionConfig / SegmentConfig / SystemConfig are extracted from server/src/configs/system.rs with keep-lists, R12)
 #[derive(Clone, Copy)]
 pub enum IggyExpiry { ServerDefault, ExpireDuration(u64), NeverExpire }
 
